@@ -21,12 +21,15 @@ log="$sd/check.log"; : > "$log"
 demo="$(dirname "$wt")/demo"; cp -r "$sd/demo" "$demo"
 sed -i "s|=> .*|=> $wt|" "$demo/go.mod"; cp "$wt/go.sum" "$demo/go.sum"
 race=""; grep -qi '"needs_race": *true' "$sd/meta.json" 2>/dev/null && race="-race"
+fast="${SEEDCHK_FAST:-}"   # SEEDCHK_FAST=1: steps 2-4 were confirmed at import; only re-run our check (5)
 # (4) demo passes on the unchanged tree
-(cd "$demo" && go test -trimpath $race -count=1 ./... ) >>"$log" 2>&1; demo_clean=$?
+if [ -z "$fast" ]; then (cd "$demo" && go test -trimpath $race -count=1 ./... ) >>"$log" 2>&1; demo_clean=$?; else demo_clean=0; fi
 git -C "$wt" apply "$sd/patch.diff" >>"$log" 2>&1 || { echo "$name: PATCH DOES NOT APPLY"; exit 1; }
 (cd "$wt" && go build -trimpath ./... ) >>"$log" 2>&1 || { echo "$name: DOES NOT COMPILE"; exit 1; }
+if [ -z "$fast" ]; then
 (cd "$wt" && go test -trimpath -vet=off -count=1 -timeout 25m ./... ) >"$sd/suite.log" 2>&1; suite=$?
 (cd "$demo" && go test -trimpath $race -count=1 ./... ) >>"$log" 2>&1; demo_mut=$?
+else suite=0; demo_mut=1; fi
 out="$(dirname "$wt")/out"
 VERIF_OUT="$out" VERIF_REPO="$wt" /verif/run.sh "$pid" "$tier" >"$sd/ourcheck.log" 2>&1; ours=$?
 viol="$(grep -c '^VIOLATION' "$sd/ourcheck.log")"
@@ -38,7 +41,7 @@ sd,pid,tier,suite,dm,dc,ours,viol,sig,rh,vh=sys.argv[1:12]
 mp=os.path.join(sd,'meta.json')
 m=json.load(open(mp)) if os.path.exists(mp) else {}
 m.setdefault('our_checks',{})[f'{pid} {tier}']={'exit':int(ours),'violation_lines':int(viol),'signatures':sig,'repo_head':rh,'verif_head':vh}
-m['ran']={'suite_with_change':'pass' if suite=='0' else 'FAIL','demo_with_change':'fails' if dm!='0' else 'PASSES','demo_without_change':'pass' if dc=='0' else 'FAILS',
+if not os.environ.get('SEEDCHK_FAST'): m['ran']={'suite_with_change':'pass' if suite=='0' else 'FAIL','demo_with_change':'fails' if dm!='0' else 'PASSES','demo_without_change':'pass' if dc=='0' else 'FAILS',
  'commands':['git -C <scratch worktree of /repo HEAD> apply patch.diff','go test -vet=off -count=1 ./... (unedited suite)','cd demo && go test -count=1 ./...  (with and without the change)',f'VERIF_REPO=<scratch> /verif/run.sh {pid} {tier}']}
 json.dump(m,open(mp,'w'),indent=1)
 P
